@@ -142,6 +142,9 @@ static void composite_case (vf_rng *r)
     }
     if (q.dst.w > GW || q.dst.h > GH) return;
     if (!rq_build (&q, r)) return;
+    /* the destination's alpha map attached a second time at another origin (same map object): the bounds that count are the new ones */
+    if (q.dst.amap && q.dst.alpha_map && vf_chance (r, 1, 2)) { q.dst.am_x = (int)vf_range (r, -4, 5); q.dst.am_y = (int)vf_range (r, -3, 4);
+        pixman_image_set_alpha_map (q.dst.img, q.dst.amap, (int16_t)q.dst.am_x, (int16_t)q.dst.am_y); vf_count ("destination_alpha_map_moved", 1); }
     /* clips on alpha maps */
     /* no clip is put on the destination's alpha map: the statement names only its bounds (see DESIGN.md, C03) */
     if (q.src.amap && vf_chance (r, 2, 3)) { gen_boxes (r, &ac.src_am, q.src.am_w, q.src.am_h); apply_amclip (q.src.amap, &ac.src_am, r, 0); }
